@@ -250,12 +250,20 @@ let run_case (fields : string list) : string =
     let e = { ev_pattern = str_of_hex ev; ev_suffix = str_of_hex sf; ev_nospace_suffix = str_of_hex ns } in
     let (a, b) = compute_suffix e (str_of_hex inp) in
     "OK\t" ^ hex_of_str a ^ "\t" ^ hex_of_str b
-  | "expand_defs" :: vars :: src :: _ ->
+  | "expand_defs" :: vars :: src :: rest ->
     let m = smap_of_arg vars and s = str_of_hex src in
     let keys = List.map fst m in
     let orders = if List.length keys <= 4 then permutations keys else [keys; List.rev keys] in
-    alternatives (List.concat_map (fun o1 -> List.map (fun o2 ->
-        "OK\t" ^ hex_of_str (fst (expand_definitions o1 o2 m s))) orders) orders)
+    let res = alternatives (List.concat_map (fun o1 -> List.map (fun o2 ->
+        "OK\t" ^ hex_of_str (fst (expand_definitions o1 o2 m s))) orders) orders) in
+    (* bridge to the token model (the theorem C07_expansion_is_full_substitution is about it): on
+       inputs the generator built acyclic and brace-safe, text model and token model must agree *)
+    (match rest with
+     | "safe" :: _ ->
+       let names = List.map fst m in
+       let tk = detok (tok_expand keys keys (tokdefs m) (tokenize names s)) in
+       if res = "OK\t" ^ hex_of_str tk then res else "TOKEN-MODEL-DISAGREES\t" ^ hex_of_str tk ^ "\t" ^ res
+     | _ -> res)
   | "replace_suffixes" :: pairs :: content :: _ ->
     let c = str_of_hex content in
     if pairs = "nil" then "OK\t" ^ hex_of_str (replace_suffixes (fun x -> x) scan_limit_replace_suffixes c None)
